@@ -102,7 +102,16 @@ def run(ctx):
         table[base], table[base + 1] = a, b
         for (t, s) in [(0, 2), (79, 9), (r.below(80), r.below(10)), (r.range(1, 79), r.below(10))]:
             table[base + t * 10 + s] = stamp(base + t * 10 + s)
+    # slot 0: the catalogue claims 1023 sectors and file $.LAST occupies sectors 798..800, i.e. one sector beyond the 800-sector slot:
+    # the sector after the slot is sector 0 of slot 1 and must never be delivered as part of slot 0
+    last = discs.AbsFile(0x24, b'LAST', False, 0, 0, 798, b'', length=768)
+    a, b = discs.AbsCat(b'SLOT0', 0, 0, 1023, [last]).sectors()
+    table[32], table[33] = a, b
+    table[32 + 798], table[32 + 799] = stamp(32 + 798), stamp(32 + 799)
     mmb = vlib.Sparse(32 + 511 * 800, table)
+    for cmd in (['type', '--binary', ':0.$.LAST'], ['dump', ':0.$.LAST'], ['extract-files', '@out']):
+        cases.append(vlib.Case('mmb-cross', {'a.mmb': mmb}, ['--file', '@a.mmb'] + cmd, dest='out' if '@out' in cmd else None,
+                               meta={'kind': 'mmb', 'slot': 0, 'status': statuses[0], 'want': 'cross', 'pt': ('cross', cmd[0])}))
     for sl in sorted(set(probe)):
         base = 32 + sl * 800
         for (t, s) in [(t, s) for (t, s) in [(0, 2), (79, 9)] + [((k - base) // 10, (k - base) % 10) for k in table if base + 2 <= k < base + 800]]:
@@ -123,6 +132,13 @@ def run(ctx):
             ctx.count('mmb.unformatted-slot')
             if i['exit'] == 0:
                 ctx.violation('mmb-unformatted-readable', 'MMB slot %d with status 0x%02X (not formatted) was readable' % (m['slot'], m['status']), common.replay_of(c))
+            continue
+        if m['want'] == 'cross':
+            next_slot = table[32 + 800][:8]
+            leaked = next_slot in i['out'] or any(next_slot in v for v in i['files'].values())
+            if i['exit'] == 0 or leaked:
+                ctx.violation('mmb-file-crosses-slot-end', '%s of a file whose last sector lies beyond its MMB slot: exit %d%s' % (
+                    m['pt'][1], i['exit'], ', bytes of the next slot delivered' if leaked else ''), common.replay_of(c))
             continue
         if m['want'] is None:
             if i['exit'] == 0:
